@@ -195,5 +195,230 @@ def self_test():
     return worst
 
 
+
+
+# =====================================================================================
+# Earth rotation, IAU 1976 precession, IAU 1980 nutation (short series), GMST-82, ERA.
+# Written from the published formulas (Lieske 1977; Explanatory Supplement to the Astronomical
+# Almanac 1992, 3.21 / 3.222; Meeus, Astronomical Algorithms ch. 12 and 22; Aoki 1982;
+# IERS Conventions 2010 eq. 5.15) - nothing here is taken from beyond.
+#
+# Rotation matrices are the usual *passive* ones (coordinates of a fixed vector in axes turned
+# by +a about the named axis).
+# =====================================================================================
+
+ARCSEC = math.pi / 648000.0
+MJD_J2000 = 51544.5
+
+
+def R1(a):
+    c, s = math.cos(a), math.sin(a)
+    return np.array([[1.0, 0.0, 0.0], [0.0, c, s], [0.0, -s, c]])
+
+
+def R2(a):
+    c, s = math.cos(a), math.sin(a)
+    return np.array([[c, 0.0, -s], [0.0, 1.0, 0.0], [s, 0.0, c]])
+
+
+def R3(a):
+    c, s = math.cos(a), math.sin(a)
+    return np.array([[c, s, 0.0], [-s, c, 0.0], [0.0, 0.0, 1.0]])
+
+
+def centuries(mjd_day, sec):
+    """Julian centuries from J2000.0 of the clock reading (integer MJD day, seconds of day)."""
+    return ((mjd_day - 51544) - 0.5 + sec / 86400.0) / 36525.0
+
+
+def precession_angles_iau76(T):
+    """Lieske (1977) equatorial precession angles zeta_A, theta_A, z_A from J2000.0, radians (T in TT)."""
+    zeta = (2306.2181 + (0.30188 + 0.017998 * T) * T) * T * ARCSEC
+    theta = (2004.3109 - (0.42665 + 0.041833 * T) * T) * T * ARCSEC
+    z = (2306.2181 + (1.09468 + 0.018203 * T) * T) * T * ARCSEC
+    return zeta, theta, z
+
+
+def precession_matrix_iau76(T):
+    """P with  r(mean of date) = P r(J2000)  (Explanatory Supplement 3.21-8, written out)."""
+    zeta, theta, z = precession_angles_iau76(T)
+    cz, sz = math.cos(z), math.sin(z)
+    ct, st_ = math.cos(theta), math.sin(theta)
+    ca, sa = math.cos(zeta), math.sin(zeta)
+    return np.array([
+        [cz * ct * ca - sz * sa, -cz * ct * sa - sz * ca, -cz * st_],
+        [sz * ct * ca + cz * sa, -sz * ct * sa + cz * ca, -sz * st_],
+        [st_ * ca, -st_ * sa, ct],
+    ])
+
+
+def mean_obliquity_1980(T):
+    return (84381.448 - (46.8150 + (0.00059 - 0.001813 * T) * T) * T) * ARCSEC
+
+
+def delaunay_1980(T):
+    """l (Moon anomaly), l' (Sun anomaly), F, D, Omega in radians (IAU 1980 theory; Meeus p. 144)."""
+    l = 134.96298 + 477198.867398 * T + 0.0086972 * T * T + T**3 / 56250.0
+    lp = 357.52772 + 35999.050340 * T - 0.0001603 * T * T - T**3 / 300000.0
+    F = 93.27191 + 483202.017538 * T - 0.0036825 * T * T + T**3 / 327270.0
+    D = 297.85036 + 445267.111480 * T - 0.0019142 * T * T + T**3 / 189474.0
+    Om = 125.04452 - 1934.136261 * T + 0.0020708 * T * T + T**3 / 450000.0
+    return tuple(math.radians(x % 360.0) for x in (l, lp, F, D, Om))
+
+
+# (l, l', F, D, Om,  dpsi [0.0001"], dpsi rate [0.0001"/cy],  deps, deps rate): the 35 largest
+# terms of the 1980 IAU theory of nutation (Seidelmann 1982; Meeus table 22.A).  The terms left
+# out sum to < 0.022" in longitude.
+NUT80 = [
+    (0, 0, 0, 0, 1, -171996.0, -174.2, 92025.0, 8.9),
+    (0, 0, 2, -2, 2, -13187.0, -1.6, 5736.0, -3.1),
+    (0, 0, 2, 0, 2, -2274.0, -0.2, 977.0, -0.5),
+    (0, 0, 0, 0, 2, 2062.0, 0.2, -895.0, 0.5),
+    (0, 1, 0, 0, 0, 1426.0, -3.4, 54.0, -0.1),
+    (1, 0, 0, 0, 0, 712.0, 0.1, -7.0, 0.0),
+    (0, 1, 2, -2, 2, -517.0, 1.2, 224.0, -0.6),
+    (0, 0, 2, 0, 1, -386.0, -0.4, 200.0, 0.0),
+    (1, 0, 2, 0, 2, -301.0, 0.0, 129.0, -0.1),
+    (0, -1, 2, -2, 2, 217.0, -0.5, -95.0, 0.3),
+    (1, 0, 0, -2, 0, -158.0, 0.0, -1.0, 0.0),
+    (0, 0, 2, -2, 1, 129.0, 0.1, -70.0, 0.0),
+    (-1, 0, 2, 0, 2, 123.0, 0.0, -53.0, 0.0),
+    (1, 0, 0, 0, 1, 63.0, 0.1, -33.0, 0.0),
+    (0, 0, 0, 2, 0, 63.0, 0.0, -2.0, 0.0),
+    (-1, 0, 2, 2, 2, -59.0, 0.0, 26.0, 0.0),
+    (-1, 0, 0, 0, 1, -58.0, -0.1, 32.0, 0.0),
+    (1, 0, 2, 0, 1, -51.0, 0.0, 27.0, 0.0),
+    (2, 0, 0, -2, 0, 48.0, 0.0, 1.0, 0.0),
+    (-2, 0, 2, 0, 1, 46.0, 0.0, -24.0, 0.0),
+    (0, 0, 2, 2, 2, -38.0, 0.0, 16.0, 0.0),
+    (2, 0, 2, 0, 2, -31.0, 0.0, 13.0, 0.0),
+    (2, 0, 0, 0, 0, 29.0, 0.0, -1.0, 0.0),
+    (1, 0, 2, -2, 2, 29.0, 0.0, -12.0, 0.0),
+    (0, 0, 2, 0, 0, 26.0, 0.0, -1.0, 0.0),
+    (0, 0, 2, -2, 0, -22.0, 0.0, 0.0, 0.0),
+    (-1, 0, 2, 0, 1, 21.0, 0.0, -10.0, 0.0),
+    (0, 2, 0, 0, 0, 17.0, -0.1, 0.0, 0.0),
+    (0, 2, 2, -2, 2, -16.0, 0.1, 7.0, 0.0),
+    (-1, 0, 0, 2, 1, 16.0, 0.0, -8.0, 0.0),
+    (0, 1, 0, 0, 1, -15.0, 0.0, 9.0, 0.0),
+    (1, 0, 0, -2, 1, -13.0, 0.0, 7.0, 0.0),
+    (0, -1, 0, 0, 1, -12.0, 0.0, 6.0, 0.0),
+    (2, 0, -2, 0, 0, 11.0, 0.0, 0.0, 0.0),
+    (-1, 0, 2, 2, 1, -10.0, 0.0, 5.0, 0.0),
+]
+NUT80_OMITTED = 0.022 * ARCSEC
+
+
+def nutation_1980_short(T, terms=None):
+    """(delta psi, delta eps) in radians, T in TT centuries."""
+    args = delaunay_1980(T)
+    dpsi = deps = 0.0
+    for row in (NUT80 if terms is None else NUT80[:terms]):
+        a = sum(k * x for k, x in zip(row[:5], args))
+        dpsi += (row[5] + row[6] * T) * math.sin(a)
+        deps += (row[7] + row[8] * T) * math.cos(a)
+    return dpsi * 1e-4 * ARCSEC, deps * 1e-4 * ARCSEC
+
+
+def nutation_matrix_1980(T):
+    """N with  r(true of date) = N r(mean of date)  (Explanatory Supplement 3.222-3)."""
+    eps0 = mean_obliquity_1980(T)
+    dpsi, deps = nutation_1980_short(T)
+    return R1(-(eps0 + deps)) @ R3(-dpsi) @ R1(eps0)
+
+
+def gmst82(mjd_day_ut1, sec_ut1):
+    """Greenwich mean sidereal time (Aoki et al. 1982) in radians, in the form of Meeus 12.4:
+    theta0 = 280.46061837 + 360.98564736629 (JD - 2451545) + 0.000387933 T^2 - T^3 / 38710000  [deg]."""
+    d = (mjd_day_ut1 - 51544) - 0.5 + sec_ut1 / 86400.0
+    T = d / 36525.0
+    # 360.98564736629 d = 360 d + 0.98564736629 d : whole turns of 360 d are dropped before they cost digits
+    deg = (280.46061837 + 360.0 * (d - math.floor(d)) + 0.98564736629 * d
+           + 0.000387933 * T * T - T**3 / 38710000.0)
+    return math.radians(deg % 360.0)
+
+
+def equation_of_equinoxes_1980(T_tt, mjd_day):
+    """Delta psi cos(mean obliquity); from 1997-02-27 (MJD 50506) on with the two complementary
+    terms of IAU 1994 resolution C7  (+0.00264" sin Om + 0.000063" sin 2 Om)."""
+    dpsi, _ = nutation_1980_short(T_tt)
+    eqe = dpsi * math.cos(mean_obliquity_1980(T_tt))
+    if mjd_day >= 50506:
+        om = delaunay_1980(T_tt)[4]
+        eqe += (0.00264 * math.sin(om) + 0.000063 * math.sin(2 * om)) * ARCSEC
+    return eqe
+
+
+def era2000(mjd_day_ut1, sec_ut1):
+    """Earth rotation angle, IERS Conventions (2010) eq. 5.15 in its precision-preserving form:
+    ERA = 2 pi (frac(Tu) + 0.7790572732640 + 0.00273781191135448 Tu),  Tu = JD(UT1) - 2451545.0."""
+    tu_int = mjd_day_ut1 - 51544
+    tu_frac = sec_ut1 / 86400.0 - 0.5
+    tu = tu_int + tu_frac
+    turns = tu_frac + 0.7790572732640 + 0.00273781191135448 * tu
+    return TWO_PI * (turns - math.floor(turns))
+
+
+def pole_axis(xp_arcsec, yp_arcsec):
+    """Unit vector of the celestial pole of date in terrestrial (ITRF) components for pole
+    coordinates x_p, y_p (y_p positive towards 90 deg W): (x_p, -y_p, 1) to first order."""
+    x, y = xp_arcsec * ARCSEC, yp_arcsec * ARCSEC
+    # exact: third row of R1(y) R2(x)  <=> z axis of the intermediate frame seen from ITRF
+    v = np.array([math.sin(x) * math.cos(y), -math.sin(y), math.cos(x) * math.cos(y)])
+    return v / np.linalg.norm(v)
+
+
+def rotation_angle(R):
+    """Angle of the rotation matrix R, accurate for small angles."""
+    R = np.asarray(R, float)
+    w = np.array([R[2, 1] - R[1, 2], R[0, 2] - R[2, 0], R[1, 0] - R[0, 1]]) / 2.0
+    return math.atan2(float(np.linalg.norm(w)), (float(np.trace(R)) - 1.0) / 2.0)
+
+
+def self_test_rotation():
+    # J2000.0 itself: identity
+    assert np.linalg.norm(precession_matrix_iau76(0.0) - np.eye(3)) < 1e-15
+    T = 0.17
+    P = precession_matrix_iau76(T)
+    zeta, theta, z = precession_angles_iau76(T)
+    assert np.linalg.norm(P - R3(-z) @ R2(theta) @ R3(-zeta)) < 1e-15
+    assert np.linalg.norm(P @ P.T - np.eye(3)) < 1e-15
+    # general precession in right ascension m = zeta + z ~ 4612.4"/cy: a J2000 equinox star gains RA
+    ra = math.atan2(P[1, 0], P[0, 0])
+    assert abs(ra - (zeta + z)) < 1e-6 and ra > 0
+    # mean pole of date seen from J2000 moves towards +x (X ~ 2004" T)
+    assert abs(P[2, 0] - 2004.3 * T * ARCSEC) < 2e-6
+    # first-order nutation matrix (Expl. Suppl. 3.222-4)
+    eps0 = mean_obliquity_1980(T)
+    dpsi, deps = nutation_1980_short(T)
+    N1 = np.array([[1, -dpsi * math.cos(eps0), -dpsi * math.sin(eps0)],
+                   [dpsi * math.cos(eps0), 1, -deps],
+                   [dpsi * math.sin(eps0), deps, 1]])
+    assert np.linalg.norm(nutation_matrix_1980(T) - N1) < 1e-8
+    assert abs(dpsi) < 20 * ARCSEC and abs(deps) < 10 * ARCSEC
+    # Meeus example 22.a: 1987 April 10, 0h TD: dpsi = -3.788", deps = +9.443", eps0 = 23d26'27.407"
+    T = centuries(46895, 0.0)
+    dpsi, deps = nutation_1980_short(T)
+    assert abs(dpsi / ARCSEC + 3.788) < 0.003, dpsi / ARCSEC
+    assert abs(deps / ARCSEC - 9.443) < 0.003, deps / ARCSEC
+    assert abs(mean_obliquity_1980(T) / ARCSEC - (23 * 3600 + 26 * 60 + 27.407)) < 0.001
+    # Meeus example 12.a/12.b: 1987 April 10, 0h UT: GMST = 13h10m46.3668s ; 19h21m00s UT: 8h34m57.0896s
+    g = gmst82(46895, 0.0) / TWO_PI * 86400.0
+    assert abs(g - (13 * 3600 + 10 * 60 + 46.3668)) < 2e-4, g
+    g = gmst82(46895, 19 * 3600 + 21 * 60) / TWO_PI * 86400.0
+    assert abs(g - (8 * 3600 + 34 * 60 + 57.0896)) < 2e-4, g
+    # GMST-82 and ERA differ by the accumulated IAU-76 precession in right ascension
+    # zeta + z = 4612.4362" T + 1.39656" T^2 (both angles coincide at J2000.0)
+    for day in (45000, 51544, 56000):
+        T = centuries(day, 0.0)
+        diff = angdiff(gmst82(day, 0.0), era2000(day, 0.0))
+        want = (4612.4362 * T + 1.39656 * T * T) * ARCSEC
+        assert abs(diff - want) < 5e-8, (day, diff, want)
+    # ERA at J2000.0 (12h UT1) = 2 pi 0.7790572732640
+    assert abs(era2000(51544, 43200.0) - TWO_PI * 0.7790572732640) < 1e-12
+    return True
+
+
 if __name__ == "__main__":
     print("geodetic forms agree to", self_test(), "m")
+    print("rotation self-test", self_test_rotation())
